@@ -28,8 +28,47 @@ import (
 	"github.com/ipld/go-ipld-prime/datamodel"
 	cidlink "github.com/ipld/go-ipld-prime/linking/cid"
 	"github.com/ipld/go-ipld-prime/node/basicnode"
+	"github.com/ipld/go-ipld-prime/schema"
 	mh "github.com/multiformats/go-multihash"
+	rcbor "github.com/storacha/go-ucanto/core/ipld/codec/cbor"
 )
+
+// go-ucanto's own entry points (core/ipld/codec/cbor Encode/Decode go through bindnode and a schema type):
+// a value is passed through them inside a one-element list typed [Any]; the bytes must be 0x81 ++ the bytes
+// of the direct dagcbor path, and decoding 0x81 ++ b must agree with the direct path on b.
+var cborBoxType = func() schema.Type {
+	ts := schema.TypeSystem{}
+	ts.Init()
+	ts.Accumulate(schema.SpawnAny("Any"))
+	ts.Accumulate(schema.SpawnList("Box", "Any", false))
+	return ts.TypeByName("Box")
+}()
+
+func repoEncode(n datamodel.Node) (b []byte, err error) {
+	defer func() {
+		if p := recover(); p != nil {
+			err = fmt.Errorf("panic: %v", p)
+		}
+	}()
+	box := []datamodel.Node{n}
+	return rcbor.Encode(&box, cborBoxType)
+}
+
+func repoDecode(b []byte) (n datamodel.Node, err error) {
+	defer func() {
+		if p := recover(); p != nil {
+			err = fmt.Errorf("panic: %v", p)
+		}
+	}()
+	var box []datamodel.Node
+	if err := rcbor.Decode(append([]byte{0x81}, b...), &box, cborBoxType); err != nil {
+		return nil, err
+	}
+	if len(box) != 1 {
+		return nil, fmt.Errorf("box of %d", len(box))
+	}
+	return box[0], nil
+}
 
 // cidBytesToCoq renders the binary form of a CID as a Gallina bstr.
 func cidBytesToCoq(c cid.Cid) string { return hx(c.Bytes()) }
@@ -698,6 +737,7 @@ func init() {
 		var samples []map[string]any
 		var goProblems []string
 		var valid [][]byte
+		repoChecks := 0
 		for i := 0; i < nvals; i++ {
 			d := r.Intn(5)
 			n, depth := randNode(r, d, st)
@@ -727,6 +767,12 @@ func init() {
 			} else if b2, err := dagcborEncode(o.node); err != nil || !bytes.Equal(b, b2) {
 				goProblems = append(goProblems, fmt.Sprintf("value #%d: re-encoding the decoded node does not reproduce the bytes", i))
 			}
+			if n.Kind() != datamodel.Kind_Null { // bindnode refuses null as a non-nullable list element
+				repoChecks++
+				if rb, err := repoEncode(n); err != nil || !bytes.Equal(rb, append([]byte{0x81}, b...)) {
+					goProblems = append(goProblems, fmt.Sprintf("value #%d: go-ucanto cbor.Encode([v]) = %x (%v), expected 0x81 ++ %x", i, rb, err, b))
+				}
+			}
 			encCases = append(encCases, "("+ipldToCoqPacked(n)+", "+pk(b)+")")
 			if len(b) < 4096 {
 				valid = append(valid, b)
@@ -744,6 +790,18 @@ func init() {
 			outcomes[o.kind]++
 			if o.kind == "panic" {
 				goProblems = append(goProblems, fmt.Sprintf("dagcbor.Decode panics on %x: %s", b, o.err))
+			}
+			if !(o.node != nil && o.node.Kind() == datamodel.Kind_Null) {
+				repoChecks++
+				rn, rerr := repoDecode(b)
+				switch {
+				case rerr != nil && strings.HasPrefix(rerr.Error(), "panic"):
+					goProblems = append(goProblems, fmt.Sprintf("go-ucanto cbor.Decode panics on 81%x: %v", b, rerr))
+				case (rerr == nil) != (o.kind == "ok" || o.kind == "float"):
+					goProblems = append(goProblems, fmt.Sprintf("go-ucanto cbor.Decode(81%x) err=%v but dagcbor.Decode(%x) -> %s", b, rerr, b, o.kind))
+				case rerr == nil && ipldToCoq(rn) != ipldToCoq(o.node): // (datamodel.DeepEqual panics on uint64 nodes above MaxInt64)
+					goProblems = append(goProblems, fmt.Sprintf("go-ucanto cbor.Decode(81%x) and dagcbor.Decode(%x) give different values", b, b))
+				}
 			}
 			decCases = append(decCases, "("+pk(b)+", "+o.coq()+")")
 		}
@@ -811,6 +869,7 @@ func init() {
 			"maps_total": st.MapsTotal, "maps_inserted_out_of_order": st.MapsUnsorted, "max_map_len": st.MaxMapLen,
 			"max_list_len": st.MaxListLen, "strings_with_invalid_utf8": st.InvalidUTF8,
 			"decode_input_classes": classes, "decode_outcomes_go": outcomes, "go_problems": goProblems, "samples": samples,
+			"repo_path_checks": repoChecks,
 		})
 	}
 }
